@@ -444,13 +444,19 @@ class Queue(Greenlet):
             self.store.remove(id)
 
     def _dequeue(self, id):
+        if id in self.active_ids:
+            return
+        # Claim the id before fetching it, so that the envelope cannot go
+        # stale while another attempt of the same message runs meanwhile.
+        self.active_ids.add(id)
         try:
             envelope, attempts = self.store.get(id)
-        except KeyError:
-            return
-        if id not in self.active_ids:
-            self.active_ids.add(id)
-            self._pool_spawn('relay', self._attempt, id, envelope, attempts)
+        except BaseException as exc:
+            self.active_ids.discard(id)
+            if isinstance(exc, KeyError):
+                return
+            raise
+        self._pool_spawn('relay', self._attempt, id, envelope, attempts)
 
     def _check_ready(self, now):
         last_i = 0
